@@ -27,6 +27,11 @@ import VsgProofs.Lemmas.SetIndent
 import VsgModel.Prog.Check
 import VsgModel.Generated.ClassifyProg
 import VsgProofs.Lemmas.ProgLayout
+import VsgProofs.Lemmas.ProgPrims
+import VsgProofs.Lemmas.ProgPrimsLayout
+import VsgProofs.Lemmas.ProgChain
+import VsgModel.Prog.NavCheck
+import VsgModel.Generated.ClassifyTables
 -- <<< WP1b layer P
 namespace Vsgm.C05
 open Vsgm Vsgm.Classify Vsgm.Lex
@@ -563,3 +568,398 @@ example :
 
 end Vsgm.C05
 -- <<< WP1b layer P
+
+-- >>> WP1c layer P: the interpreted helpers of utils.py ARE the hand models of Classify/Prims.lean
+namespace Vsgm.C05
+open Vsgm Vsgm.Classify Vsgm.Prog
+
+/-! The generated table contains, under these NAMES, exactly the bodies the theorems of `Lemmas/ProgPrims.lean`
+    execute symbolically (checked by `rfl`; positions are found by name, no position is written down).  A change of
+    one of these function bodies in `/repo/vsg/vhdlFile/utils.py` breaks the corresponding theorem here. -/
+
+abbrev genFuns : List FunDef := Gen.Prog.progTable.map (·.2)
+
+theorem progTable_find_next_token : ∃ k, funIdx "utils.find_next_token" Gen.Prog.progTable = some k
+    ∧ genFuns[k]? = some (findNextTokenDef Gen.idx_parser_item) := ⟨_, by rfl, rfl⟩
+
+theorem progTable_object_value_is : ∃ k, funIdx "utils.object_value_is" Gen.Prog.progTable = some k
+    ∧ genFuns[k]? = some objectValueIsDef := ⟨_, by rfl, rfl⟩
+
+theorem progTable_is_next_token : ∃ k kF kO, funIdx "utils.is_next_token" Gen.Prog.progTable = some k
+    ∧ funIdx "utils.find_next_token" Gen.Prog.progTable = some kF
+    ∧ funIdx "utils.object_value_is" Gen.Prog.progTable = some kO
+    ∧ genFuns[k]? = some (isNextTokenDef kF kO) := ⟨_, _, _, by rfl, by rfl, by rfl, rfl⟩
+
+theorem progTable_assign_next_token : ∃ k kF, funIdx "utils.assign_next_token" Gen.Prog.progTable = some k
+    ∧ funIdx "utils.find_next_token" Gen.Prog.progTable = some kF
+    ∧ genFuns[k]? = some (assignNextTokenDef kF) := ⟨_, _, by rfl, by rfl, rfl⟩
+
+theorem progTable_assign_next_token_if : ∃ k kF kO, funIdx "utils.assign_next_token_if" Gen.Prog.progTable = some k
+    ∧ funIdx "utils.find_next_token" Gen.Prog.progTable = some kF
+    ∧ funIdx "utils.object_value_is" Gen.Prog.progTable = some kO
+    ∧ genFuns[k]? = some (assignNextTokenIfDef kF kO) := ⟨_, _, _, by rfl, by rfl, by rfl, rfl⟩
+
+theorem progTable_assign_next_token_if_not : ∃ k kF kO, funIdx "utils.assign_next_token_if_not" Gen.Prog.progTable = some k
+    ∧ funIdx "utils.find_next_token" Gen.Prog.progTable = some kF
+    ∧ funIdx "utils.object_value_is" Gen.Prog.progTable = some kO
+    ∧ genFuns[k]? = some (assignNextTokenIfNotDef kF kO) := ⟨_, _, _, by rfl, by rfl, by rfl, rfl⟩
+
+theorem progTable_assign_next_token_required : ∃ k kF kO kE,
+    funIdx "utils.assign_next_token_required" Gen.Prog.progTable = some k
+    ∧ funIdx "utils.find_next_token" Gen.Prog.progTable = some kF
+    ∧ funIdx "utils.object_value_is" Gen.Prog.progTable = some kO
+    ∧ funIdx "utils.print_error_message" Gen.Prog.progTable = some kE
+    ∧ genFuns[k]? = some (assignNextTokenRequiredDef kF kO kE) := ⟨_, _, _, _, by rfl, by rfl, by rfl, by rfl, rfl⟩
+
+/-- a system whose program table is the generated one and whose `parser.item` is the generated class index -/
+structure GenSys (S : Sys) (T : ClassTables) : Prop where
+  funs : S.funs = genFuns.toArray
+  item : T.item = Gen.idx_parser_item
+
+theorem GenSys.get {S : Sys} {T : ClassTables} (h : GenSys S T) (k : Nat) : S.funs[k]? = genFuns[k]? := by
+  rw [h.funs]; simp
+
+theorem GenSys.find {S : Sys} {T : ClassTables} (h : GenSys S T) {k : Nat}
+    (hk : funIdx "utils.find_next_token" Gen.Prog.progTable = some k) : S.funs[k]? = some (findNextTokenDef T.item) := by
+  obtain ⟨k', h1, h2⟩ := progTable_find_next_token
+  rw [h1] at hk; cases hk
+  rw [h.get, h2, h.item]
+
+theorem GenSys.ovi {S : Sys} {T : ClassTables} (h : GenSys S T) {k : Nat}
+    (hk : funIdx "utils.object_value_is" Gen.Prog.progTable = some k) : S.funs[k]? = some objectValueIsDef := by
+  obtain ⟨k', h1, h2⟩ := progTable_object_value_is
+  rw [h1] at hk; cases hk
+  rw [h.get, h2]
+
+/-- **translated `utils.find_next_token` = hand model `findNextToken`** -/
+theorem prog_find_next_token (S : Sys) (T : ClassTables) (hG : GenSys S T) (k : Nat)
+    (hk : funIdx "utils.find_next_token" Gen.Prog.progTable = some k) (m i : Nat) (st : State)
+    (hfuel : st.toks.size < m + 4) (hsteps : st.steps + st.toks.size + 1 < S.maxSteps) (hdepth : st.depth < S.maxDepth) :
+    ∃ st', (run S (m + 6)).call k [.int i, .toks] st = (.ok (.int (findNextToken T i st.toks.toList : Nat)), st')
+      ∧ SameButCounters st st' :=
+  let ⟨st', h, hs, _⟩ := call_find_next_token S T k m i st (hG.find hk) hfuel hsteps hdepth
+  ⟨st', h, hs⟩
+
+/-- **translated `utils.object_value_is` = hand model `objectValueIs`** -/
+theorem prog_object_value_is (S : Sys) (T : ClassTables) (hG : GenSys S T) (k : Nat)
+    (hk : funIdx "utils.object_value_is" Gen.Prog.progTable = some k) (m i : Nat) (s : Str) (st : State)
+    (hsteps : st.steps < S.maxSteps) (hdepth : st.depth < S.maxDepth) :
+    ∃ st', (run S (m + 6)).call k [.toks, .int i, .str s] st = (boolRes (objectValueIs st.toks.toList i (S.lowerS s)), st')
+      ∧ SameButCounters st st' :=
+  let ⟨st', h, hs, _⟩ := call_object_value_is S k m i s st (hG.ovi hk) hsteps hdepth
+  ⟨st', h, hs⟩
+
+/-- **translated `utils.is_next_token` = hand model `isNextToken`** -/
+theorem prog_is_next_token (S : Sys) (T : ClassTables) (hG : GenSys S T) (k : Nat)
+    (hk : funIdx "utils.is_next_token" Gen.Prog.progTable = some k) (m i : Nat) (s : Str) (st : State)
+    (hfuel : st.toks.size < m + 4) (hsteps : st.steps + st.toks.size + 4 < S.maxSteps) (hdepth : st.depth + 1 < S.maxDepth) :
+    ∃ st', (run S (m + 9)).call k [.str s, .int i, .toks] st = (boolRes (isNextToken T (S.lowerS s) i st.toks.toList), st')
+      ∧ st'.toks = st.toks ∧ st'.frame = st.frame ∧ st'.depth = st.depth ∧ st'.heap = st.heap := by
+  obtain ⟨k', kF, kO, h1, h2, h3, hb⟩ := progTable_is_next_token
+  rw [h1] at hk; cases hk
+  obtain ⟨st', h, a, b, c, d, _⟩ := call_is_next_token S T k kF kO m i s st (by rw [hG.get, hb]) (hG.find h2) (hG.ovi h3)
+    hfuel hsteps hdepth
+  exact ⟨st', h, a, b, c, d⟩
+
+/-- **translated `utils.assign_next_token`**: re-tags the next raw item with `token(value)` (falling back to `token()` on
+    TypeError) and returns the index after it — `assignNextTokenSpec`, i.e. `Classify.assignNextToken` with the
+    constructor behaviour of the class table; on an exception the token list is untouched -/
+theorem prog_assign_next_token (S : Sys) (T : ClassTables) (hG : GenSys S T) (k : Nat)
+    (hk : funIdx "utils.assign_next_token" Gen.Prog.progTable = some k) (m c i : Nat) (st : State)
+    (hfuel : st.toks.size < m + 4) (hsteps : st.steps + st.toks.size + 4 < S.maxSteps) (hdepth : st.depth + 1 < S.maxDepth) :
+    ∃ st', (run S (m + 9)).call k [.cls c, .int i, .toks] st = (specVal (assignNextTokenSpec S T c i st.toks), st')
+      ∧ st'.toks = specToks st.toks (assignNextTokenSpec S T c i st.toks)
+      ∧ st'.frame = st.frame ∧ st'.depth = st.depth ∧ st'.heap = st.heap := by
+  obtain ⟨k', kF, h1, h2, hb⟩ := progTable_assign_next_token
+  rw [h1] at hk; cases hk
+  obtain ⟨st', h, a, b, c', d, _⟩ := call_assign_next_token S T k kF m c i st (by rw [hG.get, hb]) (hG.find h2)
+    hfuel hsteps hdepth
+  exact ⟨st', h, a, b, c', d⟩
+
+/-- **translated `utils.assign_next_token_if`** = `assignIfSpec … false` -/
+theorem prog_assign_next_token_if (S : Sys) (T : ClassTables) (hG : GenSys S T) (k : Nat)
+    (hk : funIdx "utils.assign_next_token_if" Gen.Prog.progTable = some k) (m c i : Nat) (s : Str) (st : State)
+    (hfuel : st.toks.size < m + 4) (hsteps : st.steps + st.toks.size + 5 < S.maxSteps) (hdepth : st.depth + 1 < S.maxDepth) :
+    ∃ st', (run S (m + 10)).call k [.str s, .cls c, .int i, .toks] st = (specVal (assignIfSpec S T false s c i st.toks), st')
+      ∧ st'.toks = specToks st.toks (assignIfSpec S T false s c i st.toks)
+      ∧ st'.frame = st.frame ∧ st'.depth = st.depth ∧ st'.heap = st.heap := by
+  obtain ⟨k', kF, kO, h1, h2, h3, hb⟩ := progTable_assign_next_token_if
+  rw [h1] at hk; cases hk
+  obtain ⟨st', h, a, b, c', d, _⟩ := call_assign_next_token_if S T k kF kO m c i s st (by rw [hG.get, hb]) (hG.find h2)
+    (hG.ovi h3) hfuel hsteps hdepth
+  exact ⟨st', h, a, b, c', d⟩
+
+/-- **translated `utils.assign_next_token_if_not`** = `assignIfSpec … true` -/
+theorem prog_assign_next_token_if_not (S : Sys) (T : ClassTables) (hG : GenSys S T) (k : Nat)
+    (hk : funIdx "utils.assign_next_token_if_not" Gen.Prog.progTable = some k) (m c i : Nat) (s : Str) (st : State)
+    (hfuel : st.toks.size < m + 4) (hsteps : st.steps + st.toks.size + 5 < S.maxSteps) (hdepth : st.depth + 1 < S.maxDepth) :
+    ∃ st', (run S (m + 10)).call k [.str s, .cls c, .int i, .toks] st = (specVal (assignIfSpec S T true s c i st.toks), st')
+      ∧ st'.toks = specToks st.toks (assignIfSpec S T true s c i st.toks)
+      ∧ st'.frame = st.frame ∧ st'.depth = st.depth ∧ st'.heap = st.heap := by
+  obtain ⟨k', kF, kO, h1, h2, h3, hb⟩ := progTable_assign_next_token_if_not
+  rw [h1] at hk; cases hk
+  obtain ⟨st', h, a, b, c', d, _⟩ := call_assign_next_token_if_not S T k kF kO m c i s st (by rw [hG.get, hb]) (hG.find h2)
+    (hG.ovi h3) hfuel hsteps hdepth
+  exact ⟨st', h, a, b, c', d⟩
+
+/-- **translated `utils.assign_next_token_required`**, all cases that do not call `print_error_message` (required value
+    found: re-tag and advance; no next item: the IndexError of `object_value_is`) -/
+theorem prog_assign_next_token_required (S : Sys) (T : ClassTables) (hG : GenSys S T) (k : Nat)
+    (hk : funIdx "utils.assign_next_token_required" Gen.Prog.progTable = some k) (m c i : Nat) (s : Str) (st : State)
+    (hfuel : st.toks.size < m + 4) (hsteps : st.steps + st.toks.size + 5 < S.maxSteps) (hdepth : st.depth + 1 < S.maxDepth)
+    (hreq : objectValueIs st.toks.toList (findNextToken T i st.toks.toList) (S.lowerS s) ≠ .ok false) :
+    ∃ st', (run S (m + 10)).call k [.str s, .cls c, .int i, .toks] st = (specVal (assignIfSpec S T false s c i st.toks), st')
+      ∧ st'.toks = specToks st.toks (assignIfSpec S T false s c i st.toks)
+      ∧ st'.frame = st.frame ∧ st'.depth = st.depth ∧ st'.heap = st.heap := by
+  obtain ⟨k', kF, kO, kE, h1, h2, h3, _, hb⟩ := progTable_assign_next_token_required
+  rw [h1] at hk; cases hk
+  obtain ⟨st', h, a, b, c', d, _⟩ := call_assign_next_token_required S T k kF kO kE m c i s st (by rw [hG.get, hb])
+    (hG.find h2) (hG.ovi h3) hfuel hsteps hdepth hreq
+  exact ⟨st', h, a, b, c', d⟩
+
+/-- **layout blindness of the TRANSLATED `find_next_token`** (`prims_forwardSearch` is now a statement about the
+    generated code): on two states whose token lists have the same raw-item view, called at corresponding positions,
+    the interpreted function returns corresponding positions, and these point at the same raw item -/
+theorem prog_find_next_token_layout (S : Sys) (T : ClassTables) (hG : GenSys S T) (k : Nat)
+    (hk : funIdx "utils.find_next_token" Gen.Prog.progTable = some k) (m i j : Nat) (st st' : State)
+    (hv : view (isRaw T) st.toks.toList = view (isRaw T) st'.toks.toList)
+    (hr : rank (isRaw T) st.toks.toList i = rank (isRaw T) st'.toks.toList j)
+    (hfuel : st.toks.size < m + 4) (hsteps : st.steps + st.toks.size + 1 < S.maxSteps) (hdepth : st.depth < S.maxDepth)
+    (hfuel' : st'.toks.size < m + 4) (hsteps' : st'.steps + st'.toks.size + 1 < S.maxSteps) (hdepth' : st'.depth < S.maxDepth) :
+    ∃ (p q : Nat) (s1 s1' : State),
+      (run S (m + 6)).call k [.int i, .toks] st = (.ok (.int p), s1) ∧
+      (run S (m + 6)).call k [.int j, .toks] st' = (.ok (.int q), s1') ∧
+      rank (isRaw T) st.toks.toList p = rank (isRaw T) st'.toks.toList q ∧
+      (st.toks.toList[p]?).filter (isRaw T) = (st'.toks.toList[q]?).filter (isRaw T) ∧
+      s1.toks = st.toks ∧ s1'.toks = st'.toks := by
+  obtain ⟨s1, h1, hs1⟩ := prog_find_next_token S T hG k hk m i st hfuel hsteps hdepth
+  obtain ⟨s1', h1', hs1'⟩ := prog_find_next_token S T hG k hk m j st' hfuel' hsteps' hdepth'
+  have := prims_forwardSearch (isRaw T) st.toks.toList st'.toks.toList i j hv hr
+  rw [← (prims_findNext_are_forwardSearches T i st.toks.toList).1,
+    ← (prims_findNext_are_forwardSearches T j st'.toks.toList).1] at this
+  exact ⟨_, _, s1, s1', h1, h1', this.1, this.2, hs1.toks, hs1'.toks⟩
+
+/-- **layout blindness of the TRANSLATED `is_next_token`** (through `prims_isNextToken_partial`): same answer at
+    corresponding positions when a raw item follows -/
+theorem prog_is_next_token_layout_partial (S : Sys) (T : ClassTables) (hG : GenSys S T) (k : Nat)
+    (hk : funIdx "utils.is_next_token" Gen.Prog.progTable = some k) (m i j : Nat) (s : Str) (st st' : State)
+    (hv : view (isRaw T) st.toks.toList = view (isRaw T) st'.toks.toList)
+    (hr : rank (isRaw T) st.toks.toList i = rank (isRaw T) st'.toks.toList j)
+    (hex : rank (isRaw T) st.toks.toList i < (view (isRaw T) st.toks.toList).length)
+    (hfuel : st.toks.size < m + 4) (hsteps : st.steps + st.toks.size + 4 < S.maxSteps) (hdepth : st.depth + 1 < S.maxDepth)
+    (hfuel' : st'.toks.size < m + 4) (hsteps' : st'.steps + st'.toks.size + 4 < S.maxSteps)
+    (hdepth' : st'.depth + 1 < S.maxDepth) :
+    ∃ (r : Except Err Val) (s1 s1' : State),
+      (run S (m + 9)).call k [.str s, .int i, .toks] st = (r, s1) ∧
+      (run S (m + 9)).call k [.str s, .int j, .toks] st' = (r, s1') ∧ s1.toks = st.toks ∧ s1'.toks = st'.toks := by
+  obtain ⟨s1, h1, ht1, _⟩ := prog_is_next_token S T hG k hk m i s st hfuel hsteps hdepth
+  obtain ⟨s1', h1', ht1', _⟩ := prog_is_next_token S T hG k hk m j s st' hfuel' hsteps' hdepth'
+  have := prims_isNextToken_partial T (S.lowerS s) st.toks.toList st'.toks.toList i j hv hr hex
+  rw [← this] at h1'
+  exact ⟨_, s1, s1', h1, h1', ht1, ht1'⟩
+
+/-- **layout blindness of the TRANSLATED `assign_next_token`**: on two states with the same raw-item view, called at
+    corresponding positions in front of a raw item, the interpreted function ends in the same exception, or re-tags
+    "the same" token: the new token lists again have the same raw-item view and the returned indices correspond -/
+theorem prog_assign_next_token_layout_partial (S : Sys) (T : ClassTables) (hG : GenSys S T) (k : Nat)
+    (hk : funIdx "utils.assign_next_token" Gen.Prog.progTable = some k) (m c i j : Nat) (st st' : State)
+    (hv : view (isRaw T) st.toks.toList = view (isRaw T) st'.toks.toList)
+    (hr : rank (isRaw T) st.toks.toList i = rank (isRaw T) st'.toks.toList j)
+    (hex : rank (isRaw T) st.toks.toList i < (view (isRaw T) st.toks.toList).length)
+    (hfuel : st.toks.size < m + 4) (hsteps : st.steps + st.toks.size + 4 < S.maxSteps) (hdepth : st.depth + 1 < S.maxDepth)
+    (hfuel' : st'.toks.size < m + 4) (hsteps' : st'.steps + st'.toks.size + 4 < S.maxSteps)
+    (hdepth' : st'.depth + 1 < S.maxDepth) :
+    ∃ (r r' : Except Err (Array CTok × Nat)) (s1 s1' : State),
+      (run S (m + 9)).call k [.cls c, .int i, .toks] st = (specVal r, s1) ∧
+      (run S (m + 9)).call k [.cls c, .int j, .toks] st' = (specVal r', s1') ∧
+      s1.toks = specToks st.toks r ∧ s1'.toks = specToks st'.toks r' ∧ SpecRel T r r' := by
+  obtain ⟨s1, h1, ht1, _⟩ := prog_assign_next_token S T hG k hk m c i st hfuel hsteps hdepth
+  obtain ⟨s1', h1', ht1', _⟩ := prog_assign_next_token S T hG k hk m c j st' hfuel' hsteps' hdepth'
+  exact ⟨_, _, s1, s1', h1, h1', ht1, ht1', assignNextTokenSpec_layout S T c i j st.toks st'.toks hv hr hex⟩
+
+/-- the same for `assign_next_token_if` -/
+theorem prog_assign_next_token_if_layout_partial (S : Sys) (T : ClassTables) (hG : GenSys S T) (k : Nat)
+    (hk : funIdx "utils.assign_next_token_if" Gen.Prog.progTable = some k) (m c i j : Nat) (s : Str) (st st' : State)
+    (hv : view (isRaw T) st.toks.toList = view (isRaw T) st'.toks.toList)
+    (hr : rank (isRaw T) st.toks.toList i = rank (isRaw T) st'.toks.toList j)
+    (hex : rank (isRaw T) st.toks.toList i < (view (isRaw T) st.toks.toList).length)
+    (hfuel : st.toks.size < m + 4) (hsteps : st.steps + st.toks.size + 5 < S.maxSteps) (hdepth : st.depth + 1 < S.maxDepth)
+    (hfuel' : st'.toks.size < m + 4) (hsteps' : st'.steps + st'.toks.size + 5 < S.maxSteps)
+    (hdepth' : st'.depth + 1 < S.maxDepth) :
+    ∃ (r r' : Except Err (Array CTok × Nat)) (s1 s1' : State),
+      (run S (m + 10)).call k [.str s, .cls c, .int i, .toks] st = (specVal r, s1) ∧
+      (run S (m + 10)).call k [.str s, .cls c, .int j, .toks] st' = (specVal r', s1') ∧
+      s1.toks = specToks st.toks r ∧ s1'.toks = specToks st'.toks r' ∧ SpecRel T r r' := by
+  obtain ⟨s1, h1, ht1, _⟩ := prog_assign_next_token_if S T hG k hk m c i s st hfuel hsteps hdepth
+  obtain ⟨s1', h1', ht1', _⟩ := prog_assign_next_token_if S T hG k hk m c j s st' hfuel' hsteps' hdepth'
+  exact ⟨_, _, s1, s1', h1, h1', ht1, ht1', assignIfSpec_layout S T false s c i j st.toks st'.toks hv hr hex⟩
+
+/-- the same for `assign_next_token_if_not` -/
+theorem prog_assign_next_token_if_not_layout_partial (S : Sys) (T : ClassTables) (hG : GenSys S T) (k : Nat)
+    (hk : funIdx "utils.assign_next_token_if_not" Gen.Prog.progTable = some k) (m c i j : Nat) (s : Str) (st st' : State)
+    (hv : view (isRaw T) st.toks.toList = view (isRaw T) st'.toks.toList)
+    (hr : rank (isRaw T) st.toks.toList i = rank (isRaw T) st'.toks.toList j)
+    (hex : rank (isRaw T) st.toks.toList i < (view (isRaw T) st.toks.toList).length)
+    (hfuel : st.toks.size < m + 4) (hsteps : st.steps + st.toks.size + 5 < S.maxSteps) (hdepth : st.depth + 1 < S.maxDepth)
+    (hfuel' : st'.toks.size < m + 4) (hsteps' : st'.steps + st'.toks.size + 5 < S.maxSteps)
+    (hdepth' : st'.depth + 1 < S.maxDepth) :
+    ∃ (r r' : Except Err (Array CTok × Nat)) (s1 s1' : State),
+      (run S (m + 10)).call k [.str s, .cls c, .int i, .toks] st = (specVal r, s1) ∧
+      (run S (m + 10)).call k [.str s, .cls c, .int j, .toks] st' = (specVal r', s1') ∧
+      s1.toks = specToks st.toks r ∧ s1'.toks = specToks st'.toks r' ∧ SpecRel T r r' := by
+  obtain ⟨s1, h1, ht1, _⟩ := prog_assign_next_token_if_not S T hG k hk m c i s st hfuel hsteps hdepth
+  obtain ⟨s1', h1', ht1', _⟩ := prog_assign_next_token_if_not S T hG k hk m c j s st' hfuel' hsteps' hdepth'
+  exact ⟨_, _, s1, s1', h1, h1', ht1, ht1', assignIfSpec_layout S T true s c i j st.toks st'.toks hv hr hex⟩
+
+/-- **the navigation fragment, by name** (candidates for the lifting, NO lifting theorem): the largest set of functions
+    of the generated table that touch the token list only through calls of the seven helpers above (`navBase`) or of
+    each other, built from assignments of call results / variables / `x ± const`, if / while on such calls, return.
+    The check says the set is closed; `./check PROG` reports how many of the executed functions are in it. -/
+def progNavFragment : List String :=
+  ["utils.assign_tokens_until", "utils.has_label", "utils.token_is_semicolon", "utils.token_is_comma",
+   "utils.token_is_open_parenthesis", "utils.token_is_close_parenthesis", "utils.token_is_assignment_operator",
+   "utils.increment_token_count", "utils.update_paren_counter", "utils.convert_yes_no_option_to_boolean",
+   "classify.architecture_body.classify_opening_declaration",
+   "classify.architecture_body.classify_closing_declaration",
+   "classify.component_declaration.classify_opening_declaration",
+   "classify.component_declaration.classify_closing_declaration", "classify.component_specification.classify",
+   "classify.condition_clause.detect", "classify.configuration_declaration.classify_opening_declaration",
+   "classify.configuration_declaration.classify_closing_declaration", "classify.entity_aspect.classify",
+   "classify.entity_declaration.classify_opening_declaration",
+   "classify.entity_declaration.classify_closing_declaration", "classify.enumeration_type_definition.detect",
+   "classify.enumeration_type_definition.classify", "classify.force_mode.detect",
+   "classify.group_constituent_list.classify", "classify.group_declaration.detect",
+   "classify.group_declaration.classify", "classify.identifier.classify",
+   "classify.incomplete_type_declaration.classify", "classify.instantiation_list.classify",
+   "classify.interface_incomplete_type_declaration.detect",
+   "classify.interface_incomplete_type_declaration.classify",
+   "classify.interface_package_generic_map_aspect.classify", "classify.interface_type_declaration.detect",
+   "classify.mode.classify", "classify.package_body.classify_opening_declaration",
+   "classify.package_declaration.classify_opening_declaration",
+   "classify.package_declaration.classify_closing_declaration",
+   "classify.process_statement.classify_closing_declaration", "classify.psl_assert_directive.classify",
+   "classify.psl_assume_directive.classify", "classify.psl_clock_declaration.classify",
+   "classify.psl_cover_directive.classify", "classify.psl_fairness_statement.classify",
+   "classify.psl_property_declaration.detect", "classify.psl_property_declaration.classify",
+   "classify.psl_restrict_directive.classify", "classify.psl_restrict_n_directive.classify",
+   "classify.psl_sequence_declaration.detect", "classify.psl_sequence_declaration.classify",
+   "classify.psl_verification_unit.classify", "classify.range.token_is_matching_close_parenthesis",
+   "classify.resolution_indication.classify_resolution_function_name",
+   "classify.resolution_indication.detect_element_resolution", "classify.sensitivity_clause.detect",
+   "classify.signal_kind.detect", "classify.signal_kind.classify",
+   "classify.simple_release_assignment.classify", "classify.subprogram_kind.detect",
+   "classify.subprogram_kind.classify", "classify.timeout_clause.detect"]
+
+theorem progTable_nav_fragment : navClosed navBase progNavFragment Gen.Prog.progTable = true := by decide +kernel
+
+/-- it is the LARGEST such set -/
+theorem progTable_nav_fragment_largest : navFragmentNames Gen.Prog.progTable = progNavFragment := by decide +kernel
+
+/-- non-vacuity: the running system's class tables and any `Sys` over the generated table form a `GenSys` -/
+example (S : Sys) (h : S.funs = genFuns.toArray) : GenSys S pyClassTables := ⟨h, rfl⟩
+
+end Vsgm.C05
+-- <<< WP1c layer P
+
+-- >>> WP1c layer P, stage 2: lifting for straight-line productions (chains)
+namespace Vsgm.C05
+open Vsgm Vsgm.Classify Vsgm.Prog
+
+/-- the helper positions of the generated table, by name -/
+abbrev genSig : ChainSig := chainSigOf Gen.Prog.progTable
+
+theorem genSys_tie (S : Sys) (T : ClassTables) (hG : GenSys S T) : ChainTie S T genSig := by
+  obtain ⟨k1, a1, b1⟩ := progTable_find_next_token
+  obtain ⟨k2, a2, b2⟩ := progTable_object_value_is
+  obtain ⟨k3, kF3, a3, f3, b3⟩ := progTable_assign_next_token
+  obtain ⟨k4, kF4, kO4, a4, f4, o4, b4⟩ := progTable_assign_next_token_if
+  obtain ⟨k5, kF5, kO5, a5, f5, o5, b5⟩ := progTable_assign_next_token_if_not
+  obtain ⟨k6, kF6, kO6, kE6, a6, f6, o6, e6, b6⟩ := progTable_assign_next_token_required
+  rw [a1] at f3 f4 f5 f6; cases f3; cases f4; cases f5; cases f6
+  rw [a2] at o4 o5 o6; cases o4; cases o5; cases o6
+  have hF : genSig.kFind = k1 := by
+    have : genSig.kFind = (funIdx "utils.find_next_token" Gen.Prog.progTable).getD 0 := rfl
+    rw [this, a1]; rfl
+  have hO : genSig.kOvi = k2 := by
+    have : genSig.kOvi = (funIdx "utils.object_value_is" Gen.Prog.progTable).getD 0 := rfl
+    rw [this, a2]; rfl
+  have hA : genSig.kAnt = k3 := by
+    have : genSig.kAnt = (funIdx "utils.assign_next_token" Gen.Prog.progTable).getD 0 := rfl
+    rw [this, a3]; rfl
+  have hI : genSig.kIf = k4 := by
+    have : genSig.kIf = (funIdx "utils.assign_next_token_if" Gen.Prog.progTable).getD 0 := rfl
+    rw [this, a4]; rfl
+  have hN : genSig.kIfNot = k5 := by
+    have : genSig.kIfNot = (funIdx "utils.assign_next_token_if_not" Gen.Prog.progTable).getD 0 := rfl
+    rw [this, a5]; rfl
+  have hR : genSig.kReq = k6 := by
+    have : genSig.kReq = (funIdx "utils.assign_next_token_required" Gen.Prog.progTable).getD 0 := rfl
+    rw [this, a6]; rfl
+  have hE : genSig.kErr = kE6 := by
+    have : genSig.kErr = (funIdx "utils.print_error_message" Gen.Prog.progTable).getD 0 := rfl
+    rw [this, e6]; rfl
+  exact
+    { find := by rw [hF, hG.get, b1, hG.item]
+      ovi := by rw [hO, hG.get, b2]
+      ant := by rw [hA, hF, hG.get, b3]
+      aif := by rw [hI, hF, hO, hG.get, b4]
+      aifnot := by rw [hN, hF, hO, hG.get, b5]
+      areq := by rw [hR, hF, hO, hE, hG.get, b6] }
+
+/-- **lifting, partial (chains)**: for EVERY function of the generated table that the syntactic decoder recognises as
+    a chain (`iCurrent = utils.assign_next_token…(…)` repeated, `return iCurrent`), the interpreted call computes the fold
+    of the helpers' specifications — generic over the chain, by induction over its steps -/
+theorem prog_chain_call_partial (S : Sys) (T : ClassTables) (hG : GenSys S T) (k : Nat) (fd : FunDef) (steps : List Step)
+    (hk : genFuns[k]? = some fd) (hd : decodeChain genSig fd = some steps) (m i : Nat) (st : State)
+    (hfuel : st.toks.size < m + 4) (hsteps : st.steps + steps.length * (st.toks.size + 5) + 2 < S.maxSteps)
+    (hdepth : st.depth + 2 < S.maxDepth) (hreq : ReqOk S T steps (st.toks, i)) :
+    ∃ st', (run S (m + 13)).call k [.int i, .toks] st = (chainRes (chainSpec S T steps (st.toks, i)), st')
+      ∧ st'.toks = chainToks S T steps (st.toks, i) ∧ st'.frame = st.frame ∧ st'.depth = st.depth ∧ st'.heap = st.heap :=
+  call_chain S T genSig (genSys_tie S T hG) k m steps (by rw [hG.get, hk, decodeChain_sound genSig fd steps hd]) i st
+    hfuel hsteps hdepth hreq
+
+/-- **layout blindness, partial (chains)**: two calls of the same chain on states with the same raw-item view, at
+    corresponding positions, a raw item in front of every step reached and no `required` step failing: same exception,
+    or token lists with the same raw-item view and corresponding returned indices.  This is `LayoutBlindCall` for the
+    chains (with `view`/`rank` of raw items), resources assumed sufficient. -/
+theorem prog_chain_layout_partial (S : Sys) (T : ClassTables) (hG : GenSys S T) (k : Nat) (fd : FunDef) (steps : List Step)
+    (hk : genFuns[k]? = some fd) (hd : decodeChain genSig fd = some steps) (m i j : Nat) (st st' : State)
+    (hv : view (isRaw T) st.toks.toList = view (isRaw T) st'.toks.toList)
+    (hr : rank (isRaw T) st.toks.toList i = rank (isRaw T) st'.toks.toList j)
+    (hfol : Follows S T steps (st.toks, i))
+    (hfuel : st.toks.size < m + 4) (hsteps : st.steps + steps.length * (st.toks.size + 5) + 2 < S.maxSteps)
+    (hdepth : st.depth + 2 < S.maxDepth) (hreq : ReqOk S T steps (st.toks, i))
+    (hfuel' : st'.toks.size < m + 4) (hsteps' : st'.steps + steps.length * (st'.toks.size + 5) + 2 < S.maxSteps)
+    (hdepth' : st'.depth + 2 < S.maxDepth) (hreq' : ReqOk S T steps (st'.toks, j)) :
+    ∃ (r r' : Except Err (Array CTok × Nat)) (s1 s1' : State),
+      (run S (m + 13)).call k [.int i, .toks] st = (chainRes r, s1) ∧
+      (run S (m + 13)).call k [.int j, .toks] st' = (chainRes r', s1') ∧ SpecRel T r r' := by
+  obtain ⟨s1, h1, _⟩ := prog_chain_call_partial S T hG k fd steps hk hd m i st hfuel hsteps hdepth hreq
+  obtain ⟨s1', h1', _⟩ := prog_chain_call_partial S T hG k fd steps hk hd m j st' hfuel' hsteps' hdepth' hreq'
+  exact ⟨_, _, s1, s1', h1, h1', chainSpec_layout S T steps st.toks st'.toks i j hv hr hfol⟩
+
+/-- the chains of the generated table, by name -/
+def progChains : List String :=
+  ["classify.architecture_body.classify_opening_declaration",
+   "classify.architecture_body.classify_closing_declaration",
+   "classify.component_declaration.classify_opening_declaration",
+   "classify.component_declaration.classify_closing_declaration",
+   "classify.configuration_declaration.classify_opening_declaration",
+   "classify.configuration_declaration.classify_closing_declaration",
+   "classify.entity_declaration.classify_opening_declaration",
+   "classify.entity_declaration.classify_closing_declaration", "classify.force_mode.detect",
+   "classify.mode.classify", "classify.package_body.classify_opening_declaration",
+   "classify.package_declaration.classify_opening_declaration",
+   "classify.process_statement.classify_closing_declaration"]
+
+theorem progTable_chains : chainNames Gen.Prog.progTable = progChains := by decide +kernel
+
+set_option maxRecDepth 20000 in
+/-- non-vacuity: `architecture_body.classify_opening_declaration` decodes to the five steps of
+    `architecture identifier of entity_name is` -/
+example : ∃ k fd steps, funIdx "classify.architecture_body.classify_opening_declaration" Gen.Prog.progTable = some k
+    ∧ genFuns[k]? = some fd ∧ decodeChain genSig fd = some steps ∧ steps.length = 5 :=
+  ⟨_, _, _, by rfl, by rfl, by rfl, by rfl⟩
+
+end Vsgm.C05
+-- <<< WP1c layer P, stage 2
